@@ -14,6 +14,7 @@
    Definitions only (no lemmas) so that the correspondence still evaluates if a
    proof breaks. *)
 From Coq Require Import List ZArith NArith Bool.
+From SopVerif Require Import Gen.VectorConsts.
 Import ListNotations.
 Local Open Scope Z_scope.
 
@@ -32,7 +33,7 @@ Record st := mkSt { active : Z; content : list centry; vectors : list vent; temp
 Definition init : st := mkSt 0 [] [] [].
 Definition zero_key : ckey := mkCK 0 0 0 false 0 0 0.
 Definition MAXF : Z := 2139095039.   (* bits of math.MaxFloat32: findClosestCentroid over an empty centroid map *)
-Definition consolidate_batch : nat := 100.   (* store.consolidate.go: batchSize := 100 *)
+Definition consolidate_batch : nat := vector_consolidate_batch.   (* store.consolidate.go: batchSize, read from the source by the translator *)
 
 (* ---- Content store: a B-tree keyed by ItemID (Upsert replaces key and value) *)
 Fixpoint cfind (c : list centry) (id : N) : option (ckey * N) :=
